@@ -45,7 +45,10 @@ SHAPE = [0]
 def base(game):
     from mc import starts
 
-    n, b, v = (NOTES, BPMS, SVS) if SHAPE[0] == 0 else (NOTES2, BPMS2, SVS2)
+    if SHAPE[0] == 2:
+        n, b, v = starts.large_lists(300)
+    else:
+        n, b, v = (NOTES, BPMS, SVS) if SHAPE[0] == 0 else (NOTES2, BPMS2, SVS2)
     m = charts.make_map(game, n, b, v if game in ("osu", "qua") else (), meta=starts.game_extras(game, "plain"))
     if game == "sm":
         # two stops of different lengths: their rows are permuted like those of every other list
@@ -63,9 +66,22 @@ def base(game):
     return m
 
 
+def named_perms(n):
+    """size: for long lists all n! permutations are out of reach; five fixed ones: reversed, rotated by one, even positions
+    then odd ones, a stride-7 shuffle, and the last row moved to the front"""
+    if n <= 1:
+        return [tuple(range(n))] * 5
+    stride = [(i * 7) % n for i in range(n)] if n % 7 else [(i * 11) % n for i in range(n)]
+    if len(set(stride)) != n:
+        stride = list(range(n))[::-1]
+    return [tuple(range(n))[::-1], tuple(range(1, n)) + (0,), tuple(range(0, n, 2)) + tuple(range(1, n, 2)), tuple(stride), (n - 1,) + tuple(range(n - 1))]
+
+
 def perms_of(m):
     names = list(m.objs)
     sizes = [len(m.objs[k]) for k in names]
+    if SHAPE[0] == 2:
+        return names, [tuple(named_perms(n)[j] for n in sizes) for j in range(5)]
     return names, list(itertools.product(*[itertools.permutations(range(n)) for n in sizes]))
 
 
@@ -96,6 +112,9 @@ def roots(tier, seed):
             n = len(perms_of(base(g))[1])
             for s in range(0, n, CHUNK):
                 rs.append(dict(game=g, start=s, stop=min(n, s + CHUNK), shape=shape))
+    # size: a chart of 300 notes under five fixed permutations of every list
+    for g in charts.GAMES:
+        rs.append(dict(game=g, start=0, stop=5, shape=2))
     SHAPE[0] = 0
     return rs
 
